@@ -5,7 +5,7 @@ goto-instrument --enforce-contract target (+ replaced callee contracts)."""
 class Unit(object):
     def __init__(self, name, props, cuts, template, enforce=None, entry=None,
                  replace=(), mode='inductive', unwind=None, variants=None,
-                 thorough_variants=None, flags=(), timeout=600, model='uf',
+                 thorough_variants=None, flags=(), timeout=300, model='uf',
                  assumptions=(), replay=None, desc='', functions=None,
                  types=(), witness=None, bound_text='', cover=True,
                  clauses=None, solver=None, loop_contracts=None, obj_bits=None,
